@@ -331,14 +331,15 @@ func (r *router) Routes(routePath, methods string, handlers ...Handler) *Route {
 	}
 
 	// Collect methods from handlers if they are strings
-	for i, h := range handlers {
-		m, ok := h.(string)
+	n := 0
+	for ; n < len(handlers); n++ {
+		m, ok := handlers[n].(string)
 		if !ok {
-			handlers = handlers[i:]
 			break
 		}
 		ms = append(ms, m)
 	}
+	handlers = handlers[n:]
 
 	// The returned route wraps leaves of all methods
 	leaves := make(map[string]route.Leaf, len(ms))
